@@ -189,29 +189,29 @@ where
         J: ExactSizeIterator<Item = usize>,
     {
         let indices = indices.into_iter().collect::<Vec<_>>();
-        let min_index = *indices.first().unwrap();
         let leaves_vec = leaves.into_iter().collect::<Vec<_>>();
 
-        let max_index = start + leaves_vec.len();
+        if leaves_vec.is_empty() && indices.is_empty() {
+            return Err(Report::msg("no leaves or indices to be removed"));
+        }
+        // The whole request is validated first, so that a rejected request changes nothing
+        let end = start
+            .checked_add(leaves_vec.len())
+            .filter(|end| *end <= self.capacity())
+            .ok_or_else(|| Report::msg("provided range exceeds set size"))?;
+        if indices.iter().any(|i| *i >= self.capacity()) {
+            return Err(Report::msg("index to remove exceeds set size"));
+        }
 
-        let mut set_values = vec![Self::Hasher::default_leaf(); max_index - min_index];
-
-        for i in min_index..start {
-            if !indices.contains(&i) {
-                let value = self.get_leaf(i);
-                set_values[i - min_index] = value;
+        // We reset the removed positions which are not overwritten by the new leaves,
+        for i in indices {
+            if i < start || i >= end {
+                self.delete(i)?;
             }
         }
 
-        for i in 0..leaves_vec.len() {
-            set_values[start - min_index + i] = leaves_vec[i];
-        }
-
-        for i in indices {
-            self.cached_leaves_indices[i] = 0;
-        }
-
-        self.set_range(start, set_values.into_iter())
+        // then we write the new leaves at start, start + 1, ...
+        self.set_range(start, leaves_vec.into_iter())
             .map_err(|e| Report::msg(e.to_string()))
     }
 
